@@ -1,13 +1,33 @@
 import CddVerif.Driver.PyStr
+import CddVerif.Driver.C01
+import CddVerif.Driver.C02
+import CddVerif.Driver.C03
+import CddVerif.Driver.C04
+import CddVerif.Driver.C05
+import CddVerif.Driver.C06
+import CddVerif.Driver.C07
+import CddVerif.Driver.C08
 import CddVerif.Driver.C09
-import CddVerif.Driver.C18
-import CddVerif.Driver.C11
 import CddVerif.Driver.C10
-/-! Line-protocol driver: one JSON request per line on stdin → one JSON reply per line on stdout. -/
+import CddVerif.Driver.C11
+import CddVerif.Driver.C12
+import CddVerif.Driver.C13
+import CddVerif.Driver.C14
+import CddVerif.Driver.C15
+import CddVerif.Driver.C16
+import CddVerif.Driver.C17
+import CddVerif.Driver.C18
+import CddVerif.Driver.C19
+import CddVerif.Driver.C20
+/-! Line-protocol driver: one JSON request per line on stdin → one JSON reply per line on stdout.
+    Each property registers its ops in `CddVerif/Driver/Cxx.lean` (`def ops`). -/
 open Lean
 
 def allOps : List (String × Driver.Handler) :=
-  Driver.PyStr.ops ++ Driver.C09.ops ++ Driver.C18.ops ++ Driver.C11.ops ++ Driver.C10.ops
+  Driver.PyStr.ops ++ Driver.C01.ops ++ Driver.C02.ops ++ Driver.C03.ops ++ Driver.C04.ops ++ Driver.C05.ops ++
+  Driver.C06.ops ++ Driver.C07.ops ++ Driver.C08.ops ++ Driver.C09.ops ++ Driver.C10.ops ++ Driver.C11.ops ++
+  Driver.C12.ops ++ Driver.C13.ops ++ Driver.C14.ops ++ Driver.C15.ops ++ Driver.C16.ops ++ Driver.C17.ops ++
+  Driver.C18.ops ++ Driver.C19.ops ++ Driver.C20.ops
 
 def handle (line : String) : String :=
   match Json.parse line with
